@@ -2,6 +2,7 @@ CONSTANTS
   Families = {"roaring", "pql"}
   Entries = {"unmarshal", "irb_set_slice", "irb_clear_slice", "irb_set_btree", "irb_clear_btree", "frag_open", "api_import_set", "api_import_clear", "api_import_views", "http_import_set", "http_import_clear"}
   SrvEntries = {}
+  CtlEntries = {}
   PqlEntries = {"api_query", "http_query"}
   EnvEntries = {}
   MsgEntries = {}
